@@ -285,7 +285,7 @@ static void vmp_case(Out& out, Rng& rng, uint64_t n, int mask, uint64_t nrows, u
   std::vector<std::vector<int64_t>> arows(a_size, std::vector<int64_t>(n));
   for (uint64_t i = 0; i < a_size; i++)
     for (uint64_t j = 0; j < n; j++) av[i * a_sl + j] = arows[i][j] = rng.sbits(8);
-  if (large) {
+  if (large == 1) {
     // large results inside the budget: monomials of about 2^25 in every row of a and every matrix entry, aligned so that
     // column j collects min(nrows, a_size) * 2^50 (>= 2^51 for two rows or more, < 2^52 for at most three) in one coefficient
     for (auto& x : mat) x = 0;
@@ -300,6 +300,13 @@ static void vmp_case(Out& out, Rng& rng, uint64_t n, int mask, uint64_t nrows, u
           mat[(i * ncols + c) * n + q] = sgn * (((int64_t)1 << 25) - 1 - (int64_t)rng.below(100));
         }
     }
+  }
+  if (large == 2) {
+    // input limbs whose coefficients are all multiples of 2^32 (low words zero), still far inside the budget
+    for (uint64_t i = 0; i < a_size; i++)
+      for (uint64_t j = 0; j < n; j++) av[i * a_sl + j] = arows[i][j] = (int64_t)((uint64_t)rng.sbits(5) << 32);
+    for (auto& x : mat) x = rng.sbits(4);
+    if (a_size) av[0] = arows[0][0] = (int64_t)1 << 32;
   }
   Buf bmat(mat.size() * 8, 8 * rng.below(4), rng, 2), ba(a_size * a_sl * 8, 8 * rng.below(4), rng, 2);
   memcpy(bmat.p, mat.data(), mat.size() * 8);
@@ -355,12 +362,12 @@ static void vmp_case(Out& out, Rng& rng, uint64_t n, int mask, uint64_t nrows, u
       }
     // summed C01 budget of the rows (0 for the small-operand cases, where the result must be exact)
     long double tol = 0;
-    if (large && j < ncols)
+    if (large == 1 && j < ncols)
       for (uint64_t i = 0; i < rows; i++) {
         std::vector<int64_t> mij(&mat[(i * ncols + j) * n], &mat[(i * ncols + j) * n] + n);
         tol += 8.0L * log2l((long double)n) * ldexpl(1.0L, -53) * (norm1(arows[i]) * norm2(mij) + norm2(arows[i]) * norm1(mij));
       }
-    if (large) tol += 0.5L;
+    if (large == 1) tol += 0.5L;
     for (uint64_t k = 0; k < n; k++)
       if (fabsl((long double)((i128)res[j * n + k] - acc[k])) > tol) {
         char buf[240];
@@ -391,6 +398,13 @@ STREAM(md_vmp) {
           }
   for (uint64_t n : (thorough ? std::vector<uint64_t>{256, 1024, 4096} : std::vector<uint64_t>{256}))
     for (int t = 0; t < 4; t++) vmp_case(out, rng, n, t & 1, 1 + rng.below(6), 1 + rng.below(6), rng.below(7), rng.below(7));
+  // many rows (every unroll factor of the row loops of the extraction and product kernels), both masks
+  for (int mask = 0; mask < 2; mask++)
+    for (uint64_t rows : {(uint64_t)7, (uint64_t)8, (uint64_t)9, (uint64_t)12, (uint64_t)13, (uint64_t)16, (uint64_t)17})
+      vmp_case(out, rng, 16, mask, rows + rng.below(2), 1 + rng.below(3), rows + rng.below(3), 1 + rng.below(4));
+  // input limbs that are multiples of 2^32
+  for (uint64_t n : {(uint64_t)4, (uint64_t)16})
+    for (int mask = 0; mask < 2; mask++) vmp_case(out, rng, n, mask, 2 + rng.below(2), 1 + rng.below(3), 2 + rng.below(2), 1 + rng.below(4), 2);
   // results of magnitude 2^51..2^52 (top binade of the budget)
   for (uint64_t n : {(uint64_t)4, (uint64_t)16, (uint64_t)64})
     for (int mask = 0; mask < 2; mask++)
